@@ -15,7 +15,7 @@ def make(prop):
                 'code_objects': CLOCK.ncode}
 
     def gen(st, index, job):
-        return streamsim.gen_case(st, prop, index)
+        return streamsim.gen_case(st, prop, index, job.get('tier', 'quick'))
 
     def run(case):
         try:
@@ -34,6 +34,7 @@ def make(prop):
         v = r['verdicts'][prop]
         return {'violation': v, 'digest': r['digest'], 'log': r['log'], 'counters': r['counters'],
                 'ticks': r['ticks'], 'key': r['key'], 'nontrivial': r['nontrivial'], 'buckets': r['buckets'],
+                'case_override': r.get('case_override'),
                 'summary': dict(r['extra_summary'], D=r['D'], outcomes='/'.join(r['outcomes']),
                                 mode=case['mode'])}
 
